@@ -37,12 +37,13 @@ import (
 var initCalls int // driver.Init() hands out PIDs from a process-wide counter
 
 type vpage struct {
-	vaddr uint64
-	dev   int    // last mapping seen in the real page table
-	paddr uint64 //
-	mig   bool
-	valid bool
-	busy  bool // named in a request not answered yet
+	vaddr     uint64
+	dev       int    // last mapping seen in the real page table
+	paddr     uint64 //
+	mig       bool
+	valid     bool
+	busy      bool // named in a request not answered yet
+	hostOwned bool // a one-page buffer allocated by the host during the run
 }
 
 type mmuReq struct {
@@ -85,11 +86,18 @@ type drvRun struct {
 	stubQ [][]sim.Msg // per GPU: answers of the scripted units behind the CP, not delivered yet
 	migOf []sim.Msg   // per GPU: the PageMigrationReqToCP being executed
 	// environment discipline
-	avoid       bool  // keep clear of the two known driver defects (see design/C19.md)
-	burst       bool  // answers reach the driver in bursts, without a cycle in between
-	allAccess   bool  // every GPU is listed as accessing
-	unreadShoot int   // shootdown responses delivered to the driver and not read yet
-	stallAll    bool  // the MMU takes no reply at all until the driver has gone idle
+	avoid       bool // keep clear of the two known driver defects (see design/C19.md)
+	burst       bool // answers reach the driver in bursts, without a cycle in between
+	allAccess   bool // every GPU is listed as accessing
+	unreadShoot int  // shootdown responses delivered to the driver and not read yet
+	stallAll    bool // the MMU takes no reply at all until the driver has gone idle
+	ctx         *driver.Context
+	lastSrc     int   // GPU that a page was re-homed away from most recently
+	host        bool  // the application allocates, fills and frees memory beside the migrations
+	freeCount   []int // frames of GPU g the allocator can still hand out (sources of migrations never come back)
+	reserved    []int // ... of which promised to migrations requested and not prepared yet
+	modelHost   map[int]*vpage
+	rng2        *rand.Rand
 	spare       int   // sys: declared frames per GPU beyond the initial pages
 	rehomed     []int // sys: pages requested onto GPU g so far (must stay within the declared frames)
 }
@@ -203,15 +211,22 @@ func kindOfRsp(m sim.Msg) string {
 	return "other"
 }
 
-func newDrvRun(rec *ab.Recorder, pmcRec *ab.Recorder, n int, log2 uint64, sys bool, rng *rand.Rand, pagesPerGPU int) *drvRun {
-	r := &drvRun{rec: rec, eng: ab.NewEngine(), n: n, log2: log2, sys: sys, count: map[string]int{}, spare: 8}
+func newDrvRun(rec *ab.Recorder, pmcRec *ab.Recorder, n int, log2 uint64, sys bool, rng *rand.Rand, pagesPerGPU int, dramPages int) *drvRun {
+	r := &drvRun{rec: rec, eng: ab.NewEngine(), n: n, log2: log2, sys: sys, count: map[string]int{}, spare: 8,
+		modelHost: map[int]*vpage{}, rng2: rand.New(rand.NewSource(rng.Int63()))}
+	r.freeCount = make([]int, n+1)
+	r.reserved = make([]int, n+1)
 	if log2 >= 12 {
 		r.spare = 3 // 4 KiB pages: keep the declared storage (and with it every TLC state) small
 	}
 	r.rehomed = make([]int, n+1)
 	rec.ResetIDs()
 	pageSize := uint64(1) << log2
-	dram := pageSize * 64
+	dram := pageSize * uint64(dramPages)
+	allFrames := sys && dramPages <= 16 // small device memory: every frame is declared to the PMC trace
+	if allFrames {
+		r.spare = dramPages
+	}
 	r.pt = vm.NewPageTable(log2)
 	r.d = driver.MakeBuilder().WithEngine(r.eng).WithPageTable(r.pt).WithLog2PageSize(log2).
 		WithGlobalStorage(mem.NewStorage(8 * mem.GB)).WithMagicMemoryCopyMiddleware().Build("Driver")
@@ -266,6 +281,7 @@ func newDrvRun(rec *ab.Recorder, pmcRec *ab.Recorder, n int, log2 uint64, sys bo
 		r.d.RemotePMCPorts = append(r.d.RemotePMCPorts, r.pmcPort[g])
 	}
 	ctx := r.d.Init()
+	r.ctx = ctx
 	initCalls++
 	r.pid = vm.PID(initCalls)
 	// buffers: pagesPerGPU pages on every GPU
@@ -288,9 +304,14 @@ func newDrvRun(rec *ab.Recorder, pmcRec *ab.Recorder, n int, log2 uint64, sys bo
 				r.tok[g][pg.PAddr] = 1000 + rng.Intn(1<<20)
 			}
 		}
+		r.freeCount[g] = dramPages - pagesPerGPU
 		if sys {
 			// pages the allocator may hand out next on this device (it pops the lowest free page)
-			for k := pagesPerGPU; k < pagesPerGPU+r.spare; k++ {
+			last := pagesPerGPU + r.spare
+			if allFrames {
+				last = dramPages
+			}
+			for k := pagesPerGPU; k < last; k++ {
 				r.w.addFrame(g, r.lo[g]+uint64(k)*pageSize, int(pageSize), rng)
 			}
 		}
@@ -419,6 +440,15 @@ func (r *drvRun) poll() {
 			continue
 		}
 		if int(pg.DeviceID) != p.dev || pg.PAddr != p.paddr || pg.IsMigrating != p.mig || pg.Valid != p.valid {
+			if pg.PAddr != p.paddr { // re-homed: the destination GPU spent a frame
+				if d := r.devOf(pg.PAddr); d >= 1 {
+					r.freeCount[d]--
+					if r.reserved[d] > 0 {
+						r.reserved[d]--
+					}
+					r.lastSrc = p.dev
+				}
+			}
 			p.dev, p.paddr, p.mig, p.valid = int(pg.DeviceID), pg.PAddr, pg.IsMigrating, pg.Valid
 			b := func(x bool) int {
 				if x {
@@ -452,11 +482,135 @@ func (r *drvRun) tick(n int) {
 	}
 }
 
+// ------------------------------------------------------------ the host (application threads)
+// hostAlloc: AllocateMemory of one page on GPU g. With probe the call is made although the harness knows of no
+// free frame: the allocator must refuse (it panics "out of memory" before touching its state).
+func (r *drvRun) hostAlloc(g int, probe bool) *vpage {
+	if r.panicked {
+		return nil
+	}
+	if !probe && r.freeCount[g]-r.reserved[g] <= 0 {
+		return nil
+	}
+	if probe && r.freeCount[g] != 0 {
+		return nil
+	}
+	pageSize := uint64(1) << r.log2
+	var ptr driver.Ptr
+	failed := false
+	func() {
+		defer func() {
+			if x := recover(); x != nil {
+				failed = true
+				if fmt.Sprint(x) != "out of memory" {
+					r.panicked = true
+					r.rec.Emit("Panic", ab.Rec{"msg": fmt.Sprint(x)})
+				}
+			}
+		}()
+		r.d.SelectGPU(r.ctx, g)
+		ptr = r.d.AllocateMemory(r.ctx, pageSize)
+	}()
+	if failed {
+		if !r.panicked {
+			r.emit("HostAllocFail", ab.Rec{"dev": g})
+		}
+		return nil
+	}
+	pg, found := r.pt.Find(r.pid, uint64(ptr))
+	if !found {
+		panic("harness: allocated page not in the page table")
+	}
+	dev := r.devOf(pg.PAddr)
+	if dev >= 1 {
+		r.freeCount[dev]--
+		if !r.sys {
+			if _, ok := r.tok[dev][pg.PAddr]; !ok {
+				r.tok[dev][pg.PAddr] = 1000 + r.rng2.Intn(1<<20) // whatever the frame held
+			}
+		}
+	}
+	p := &vpage{vaddr: uint64(ptr), dev: int(pg.DeviceID), paddr: pg.PAddr, valid: pg.Valid, mig: pg.IsMigrating, hostOwned: true}
+	r.pages = append(r.pages, p)
+	r.emit("HostAlloc", ab.Rec{"vpn": r.vpn(p.vaddr), "dev": p.dev, "ppn": r.vpn(p.paddr), "rangedev": dev,
+		"off": p.paddr % pageSize, "dig": r.dig(dev, pg.PAddr)})
+	return p
+}
+
+// hostWrite: the application fills a page that is not being migrated.
+func (r *drvRun) hostWrite(p *vpage) bool {
+	if p.busy || r.panicked {
+		return false
+	}
+	pageSize := int(uint64(1) << r.log2)
+	if r.sys {
+		buf := make([]int, pageSize)
+		for i := range buf {
+			b := byte(r.rng2.Intn(256))
+			if r.rng2.Intn(4) == 0 {
+				b = 0
+			}
+			r.w.store[p.dev][p.paddr+uint64(i)] = b
+			buf[i] = int(b)
+		}
+		r.w.rec.Emit("HostWrite", ab.Rec{"g": p.dev, "base": r.w.la(p.paddr), "bytes": buf})
+	} else {
+		r.tok[p.dev][p.paddr] = 1000 + r.rng2.Intn(1<<20)
+	}
+	r.emit("HostWrite", ab.Rec{"vpn": r.vpn(p.vaddr), "dig": r.dig(p.dev, p.paddr)})
+	return true
+}
+
+// hostFree: FreeMemory of a page the host allocated and that is not being migrated.
+func (r *drvRun) hostFree(p *vpage) bool {
+	if p.busy || !p.hostOwned || r.panicked {
+		return false
+	}
+	if err := r.d.FreeMemory(r.ctx, driver.Ptr(p.vaddr)); err != nil {
+		panic(err)
+	}
+	if d := r.devOf(p.paddr); d >= 1 {
+		r.freeCount[d]++
+	}
+	for i, q := range r.pages {
+		if q == p {
+			r.pages = append(r.pages[:i], r.pages[i+1:]...)
+			break
+		}
+	}
+	r.emit("HostFree", ab.Rec{"vpn": r.vpn(p.vaddr)})
+	return true
+}
+
+// hostBurst: the application grabs what GPU g has left (and asks once more), filling what it gets - the
+// memory pressure under which a frame released too early is handed out again at once.
+func (r *drvRun) hostBurst(g int) {
+	got := []*vpage{}
+	for r.freeCount[g]-r.reserved[g] > 0 {
+		p := r.hostAlloc(g, false)
+		if p == nil {
+			break
+		}
+		got = append(got, p)
+	}
+	if p := r.hostAlloc(g, true); p != nil {
+		got = append(got, p)
+	}
+	for _, p := range got {
+		r.hostWrite(p)
+	}
+}
+
 // ------------------------------------------------------------ environment
 // issue builds an MMU request for pages that all live on host and are wanted by GPU(s) other than host.
 func (r *drvRun) issue(host int, want map[int][]*vpage, accessing []uint64) bool {
 	if r.mmuP.PeekIncoming() != nil {
 		return false
+	}
+	for g, ps := range want {
+		if r.freeCount[g]-r.reserved[g] < len(ps) {
+			return false // the destination GPU could not take the pages (the driver would panic: out of memory)
+		}
 	}
 	if r.sys {
 		for g, ps := range want {
@@ -485,6 +639,9 @@ func (r *drvRun) issue(host int, want map[int][]*vpage, accessing []uint64) bool
 	}
 	if r.mmuP.Deliver(req) != nil {
 		return false
+	}
+	for g, ps := range want {
+		r.reserved[g] += len(ps)
 	}
 	for _, p := range q.pages {
 		p.busy = true
@@ -777,6 +934,7 @@ func (r *drvRun) random(rng *rand.Rand, nreq int, stallReplies bool) {
 	issued := 0
 	mood := 0 // 1: GPUs answer nothing, 2: MMU takes no reply
 	r.stallAll = stallReplies
+	ptSeen := 0
 	for steps := 0; steps < 4000*nreq && !r.panicked; steps++ {
 		if rng.Intn(30) == 0 {
 			mood = rng.Intn(3)
@@ -887,6 +1045,35 @@ func (r *drvRun) random(rng *rand.Rand, nreq int, stallReplies bool) {
 			if mood != 2 && !stallReplies {
 				r.takeReply()
 			}
+		case 7:
+			if !r.host {
+				break
+			}
+			switch rng.Intn(6) {
+			case 0, 1:
+				r.hostAlloc(1+rng.Intn(r.n), false)
+			case 2:
+				if len(r.pages) > 0 {
+					r.hostWrite(r.pages[rng.Intn(len(r.pages))])
+				}
+			case 3:
+				if len(r.pages) > 0 {
+					r.hostFree(r.pages[rng.Intn(len(r.pages))])
+				}
+			case 4:
+				r.hostAlloc(1+rng.Intn(r.n), true)
+			case 5:
+				if r.lastSrc >= 1 {
+					r.hostBurst(r.lastSrc)
+				}
+			}
+		}
+		// a page has just been re-homed: now and then the application grabs the source GPU's memory at once
+		if r.host && r.count["PTChange"] > ptSeen {
+			ptSeen = r.count["PTChange"]
+			if rng.Intn(2) == 0 && r.lastSrc >= 1 {
+				r.hostBurst(r.lastSrc)
+			}
 		}
 		if r.sys && rng.Intn(2) == 0 {
 			r.w.serveAll()
@@ -904,8 +1091,16 @@ type DrvScenario struct {
 }
 
 func (r *drvRun) modelPage(v int) *vpage {
-	switch v {
-	case 1, 2:
+	switch {
+	case v >= 100:
+		p := r.modelHost[v]
+		for _, q := range r.pages {
+			if q == p {
+				return p
+			}
+		}
+		return nil // never allocated in this replay, or freed
+	case v == 1 || v == 2:
 		return r.pages[v-1]
 	default:
 		return r.pages[3] // first page of GPU 2 (3 pages per GPU)
@@ -924,8 +1119,18 @@ func (r *drvRun) scenStep(s Step, want map[string]int, stats map[string]int) {
 	switch s.A {
 	case "EnvMMUReq":
 		w := map[int][]*vpage{}
+		usable := true
 		for _, v := range s.Vs {
-			w[s.G] = append(w[s.G], r.modelPage(v))
+			p := r.modelPage(v)
+			if p == nil || p.busy || p.dev != s.Host {
+				usable = false
+				break
+			}
+			w[s.G] = append(w[s.G], p)
+		}
+		if !usable {
+			ok = false
+			break
 		}
 		acc := []uint64{}
 		for _, a := range s.Acc {
@@ -957,6 +1162,33 @@ func (r *drvRun) scenStep(s Step, want map[string]int, stats map[string]int) {
 	case "TakeReply":
 		r.await(awaitMax, func() bool { return r.mmuP.PeekOutgoing() != nil })
 		ok = r.takeReply()
+	case "HostAlloc":
+		p := r.hostAlloc(s.G, false)
+		ok = p != nil
+		if ok {
+			r.modelHost[s.V] = p
+		}
+	case "HostWrite", "HostFree":
+		var p *vpage
+		if s.V >= 100 {
+			p = r.modelHost[s.V]
+		} else {
+			p = r.modelPage(s.V)
+		}
+		ok = false
+		if p != nil {
+			live := false
+			for _, q := range r.pages {
+				if q == p {
+					live = true
+				}
+			}
+			if live && s.A == "HostWrite" {
+				ok = r.hostWrite(p)
+			} else if live {
+				ok = r.hostFree(p)
+			}
+		}
 	case "Await":
 		want[s.E]++
 		ok = r.await(awaitMax, func() bool { return r.count[s.E] >= want[s.E] })
@@ -989,7 +1221,7 @@ func runDriverScenarios(file, out string) map[string]int {
 	stats := map[string]int{}
 	rng := rand.New(rand.NewSource(1))
 	for _, sc := range scs {
-		r := newDrvRun(rec, nil, 2, 12, false, rng, 3)
+		r := newDrvRun(rec, nil, 2, 12, false, rng, 3, 64)
 		r.avoid = true
 		want := map[string]int{}
 		for _, s := range sc.Steps {
@@ -1036,7 +1268,11 @@ func runDriverLevel(out, pmcOut string, nruns int, seed int64, sys bool, ngpu in
 		if sys && log2 >= 12 {
 			ppg = 2
 		}
-		r := newDrvRun(rec, pmcRec, ngpu, log2, sys, rng, ppg)
+		dramPages := 64
+		if kind == "pressure" {
+			dramPages = ppg + 3 + rng.Intn(3) // small device memory
+		}
+		r := newDrvRun(rec, pmcRec, ngpu, log2, sys, rng, ppg, dramPages)
 		nreq := 1 + rng.Intn(4)
 		if sys && log2 >= 12 {
 			nreq = 1 + rng.Intn(2)
@@ -1045,6 +1281,9 @@ func runDriverLevel(out, pmcOut string, nruns int, seed int64, sys bool, ngpu in
 		switch kind {
 		case "normal":
 			r.avoid = true
+		case "pressure":
+			// the application allocates, fills and frees memory beside the migrations, device memory is small
+			r.avoid, r.host = true, true
 		case "known":
 			// scenarios that exhibit the two known driver defects (accepted once the fixes are in)
 			if i%2 == 0 {
